@@ -76,29 +76,25 @@ Proof.
   repeat split; try assumption; apply String.eqb_eq; assumption.
 Qed.
 
-Lemma finish_class : forall c, tables_ok T = true ->
-  subclass T (doc_map T c) c_abcCallable = false -> finish T (IClass c) = IClass (doc_map T c).
+Lemma finish_class : forall c, tables_ok T = true -> finish T (IClass c) = IClass (doc_map T c).
 Proof.
-  intros c Hok Hcall. destruct (tables_ok_parts Hok) as [Hmap _].
+  intros c Hok. destruct (tables_ok_parts Hok) as [Hmap _].
   unfold finish, isbuiltintype, doc_map in *. cbn [resolve_supertype in_builtin type_in type_of].
   rewrite orb_false_r.
-  assert (Hic : forall d, subclass T d c_abcCallable = false -> iscallable T (IClass d) = false).
-  { intros d Hd. unfold iscallable, safe_issubclass. cbn. rewrite Hd. reflexivity. }
   destruct (memN c (t_builtin T)) eqn:Hb.
-  - rewrite (Hic c Hcall). reflexivity.
+  - cbn [is_class negb]. rewrite andb_false_r. reflexivity.
   - unfold check_generics. destruct (assoc_ity (IClass c) (t_generic_map T)) as [v|] eqn:Ha.
     + destruct (assoc_ity_in _ _ _ Ha) as [k' Hin].
       rewrite forallb_forall in Hmap. specialize (Hmap _ Hin). cbn in Hmap.
       destruct v; cbn in Hmap; try discriminate.
-      rewrite (Hic c0 Hcall). reflexivity.
-    + rewrite (Hic c Hcall). reflexivity.
+      cbn [is_class negb]. rewrite andb_false_r. reflexivity.
+    + cbn [is_class negb]. rewrite andb_false_r. reflexivity.
 Qed.
 
 Lemma origin_resolved : forall t c, tables_ok T = true -> chain_ok t = true ->
-  head_class T (strip t) = Some c -> subclass T (doc_map T c) c_abcCallable = false ->
-  origin T t = IClass (doc_map T c).
+  head_class T (strip t) = Some c -> origin T t = IClass (doc_map T c).
 Proof.
-  intros t c Hok Hc Hh Hcall. rewrite (origin_chain t c Hc Hh). apply finish_class; assumption.
+  intros t c Hok Hc Hh. rewrite (origin_chain t c Hc Hh). apply finish_class; assumption.
 Qed.
 
 (* ------------------------------------------------------------------ the raw family (after the repair) *)
@@ -125,8 +121,7 @@ Proof.
   destruct (head_class T (strip t)) as [c|] eqn:Hh; [|destruct f; discriminate].
   destruct (tables_ok_parts Hok) as [_ [Htup _]].
   assert (Ho : uses_map f = true -> origin T t = IClass (doc_map T c)).
-  { intro Hu. destruct f; try discriminate; apply negb_true_iff in Hg;
-      apply origin_resolved; assumption. }
+  { intro Hu. apply origin_resolved; assumption. }
   destruct p; cbn in Hf; try discriminate; inversion Hf; subst f; clear Hf;
     cbn [uses_map] in *; inversion Hsays; subst b; clear Hsays;
     unfold run_pred; cbn [origin_family_bases origin_family_tp raw_family_bases];
@@ -166,11 +161,11 @@ Qed.
 
 Theorem origin_concrete : forall t c, tables_ok T = true -> chain_ok t = true ->
   head_class T (strip t) = Some c -> subclass T c c_Collection = true ->
-  ~ In c (abstract_unmapped T) -> subclass T (doc_map T c) c_abcCallable = false ->
+  ~ In c (abstract_unmapped T) ->
   origin T t = IClass (doc_map T c)
   /\ is_abstract_cls T (doc_map T c) = false /\ same_kind T (doc_map T c) c = true.
 Proof.
-  intros t c Hok Hc Hh Hcol Hnot Hcall. split; [apply origin_resolved; assumption|].
+  intros t c Hok Hc Hh Hcol Hnot. split; [apply origin_resolved; assumption|].
   assert (Hin : exists i, In (c, i) (t_cls T)).
   { unfold subclass, cinfo in Hcol. destruct (assocN c (t_cls T)) as [i|] eqn:Ha; [|discriminate].
     exists i. apply assocN_in. exact Ha. }
